@@ -427,9 +427,38 @@ VIEW_ITEMS += [("sheet_protection_read_table", attr_read_table("src/structs/shee
                ("workbook_protection_read_table", attr_read_table("src/structs/workbook_protection.rs", "workbook_protection_read_table")),
                ("workbook_protection_write_table", attr_write_table("src/structs/workbook_protection.rs", "workbook_protection_write_table"))]
 
+# ------------------------------------------------------------------ regular-expression literals
+# The hand-written matchers of the model (Umya/Model/Coord.lean for the coordinate regex, Umya/Model/Annot.lean for the
+# is_address regex, Umya/Model/NumFmt*.lean / Date.lean for the number-format regexes) implement these TEXTS.  The texts are
+# regenerated here; Umya/Lemmas/RegexGen.lean proves them equal to the texts the model records next to its matchers, so that a
+# changed regular expression breaks an obligation even if no generated input tells the two apart.
+REGEX_FILES = ["src/helper/coordinate.rs", "src/helper/address.rs", "src/structs/address.rs", "src/helper/number_format.rs",
+               "src/helper/number_format/number_formater.rs", "src/helper/number_format/date_formater.rs"]
+
+def regex_literals():
+    rows = []
+    for path in REGEX_FILES:
+        src = strip_comments(open(os.path.join(REPO, path)).read())
+        k = 0
+        for m in re.finditer(r"Regex::new\(\s*(?:&\s*)?(?:" + STR + r"|(?P<expr>[A-Za-z_][A-Za-z_0-9]*))\s*\)", src, flags=re.S):
+            if m.group("expr") is not None:
+                # built from a variable: resolve `let <name> = <literal>;` just before, else give up
+                mm = None
+                for mm in re.finditer(r"let\s+" + re.escape(m.group("expr")) + r"\s*(?::\s*[^=]+)?=\s*" + STR + r"\s*;", src[:m.start()], flags=re.S):
+                    pass
+                # (a text built at run time, e.g. with format!, is recorded by the name of the variable)
+                rows.append((f"{path}#{k}", lit_value(mm) if mm is not None else "«built at run time: " + m.group("expr") + "»"))
+            else:
+                rows.append((f"{path}#{k}", lit_value(m)))
+            k += 1
+    if not rows:
+        raise ValueError("no Regex::new literal found")
+    return ("/-- translated from the `Regex::new(<literal>)` calls of the files the matchers of the model stand for: (file#index, text), order kept -/\n"
+            "def regex_literals : List (String × String) :=\n  [" + ",\n   ".join(f"({lean_str(a)}, {lean_str(b)})" for a, b in rows) + "]\n")
+
 ITEMS = [("builtin_format_codes", builtin_formats), ("formula_errors", formula_errors), ("date_format_replacements", date_tables),
          ("cell_error_display", cell_errors), ("write_start_tag_escape", writer_pipelines), ("unescape_text_normalise", reader_pipelines),
-         ("driver_shape", driver_shape)] + VIEW_ITEMS + \
+         ("driver_shape", driver_shape), ("regex_literals", regex_literals)] + VIEW_ITEMS + \
         [(lean, enum_table(path, rust, lean)) for lean, path, rust in ENUMS] + \
         [("enum_" + stem, style_enum_table(ty, stem)) for ty, stem in STYLE_ENUMS]
 
